@@ -157,6 +157,8 @@ def run_units(units, repo, tier="quick", seed=0, tag="x", timeout=None, filters=
         for h in reg.UNITS[u]:
             if h.get("tier", "quick") == "thorough" and tier != "thorough":
                 continue
+            if h.get("tier") == "experimental" and not os.environ.get("VERIF_EXPERIMENTAL"):
+                continue  # written, but CBMC does not finish it: never part of a registered check
             f = (filters or {}).get(u)
             if f is not None and h["name"] not in f:
                 continue
